@@ -149,6 +149,7 @@ def analyse_function(ctx, repo, rel, func, seed, done, is_setup=False):
     st[f"{rel}::{func.name}"] = {"nodes": n_nodes, "edges": n_edges,
                                  "exceptional_edges": n_x}
     sinks = []
+    helper_renames = []
     for c in [n for n in walk(func) if isinstance(n, ast.Call)]:
         k = classify(c)
         if k is None:
@@ -166,6 +167,19 @@ def analyse_function(ctx, repo, rel, func, seed, done, is_setup=False):
                         arg_roles[kw.arg] = roles.of(kw.value)
                 if arg_roles and (crel, cfunc.name) != SETUP:
                     analyse_function(ctx, repo, crel, cfunc, arg_roles, done)
+                    tp = _renaming_helper(cfunc, arg_roles)
+                    if tp is not None:
+                        # the helper moves temp to output on every normal
+                        # path: the call is this function's rename
+                        targ = None
+                        for i, a in enumerate(c.args):
+                            if i < len(params) and params[i] == tp:
+                                targ = a
+                        for kw in c.keywords:
+                            if kw.arg == tp:
+                                targ = kw.value
+                        if targ is not None:
+                            helper_renames.append((c, targ))
             continue
         sinks.append((c, k))
 
@@ -227,6 +241,11 @@ def analyse_function(ctx, repo, rel, func, seed, done, is_setup=False):
         kind, paths, extra = classify(call)
         return names_in(paths[0])
 
+    temp_of = {id(rn): (rn.func.value if isinstance(rn.func, ast.Attribute)
+                        else rn.args[0]) for rn in renames}
+    for c, targ in helper_renames:
+        renames.append(c)
+        temp_of[id(c)] = targ
     for rn in renames:
         lab = f"rename-last {short(rn, 60)}"
         # (a) not in finally / except
@@ -260,8 +279,7 @@ def analyse_function(ctx, repo, rel, func, seed, done, is_setup=False):
                f"rename while writer `{short(open_w, 50)}` is still open",
                node=rn, label=lab + " [closed]")
         # (c) nothing written to the same temp binding afterwards
-        tv = names_in(rn.func.value) if isinstance(
-            rn.func, ast.Attribute) else names_in(rn.args[0])
+        tv = names_in(temp_of[id(rn)])
 
         def rebinds(n):
             if n.ast is None:
@@ -348,8 +366,7 @@ def analyse_function(ctx, repo, rel, func, seed, done, is_setup=False):
             return True
         if n.kind == "for":
             body_has = [s for s in n.ast.body if id(s) in ren_stmts]
-            if body_has and (roles.of(n.ast.iter) & {"TEMP"}
-                             or _iter_has_role(roles, n.ast.iter, "TEMP")):
+            if body_has and _whole_collection(roles, n.ast.iter, "TEMP"):
                 return True
         return False
     for w in (writes if "OUT" in {r for v in seed.values() for r in v}
@@ -370,9 +387,63 @@ def analyse_function(ctx, repo, rel, func, seed, done, is_setup=False):
     return roles
 
 
-def _iter_has_role(roles, it, role):
-    if isinstance(it, ast.Call) and call_name(it) in ("zip", "enumerate"):
-        return any(role in roles.of(a) for a in it.args)
+def _renaming_helper(cfunc, arg_roles):
+    """name of the parameter holding the temp path when every normal path
+    through the helper `cfunc` renames (temp -> output), else None"""
+    if not any(r == {"TEMP"} for r in arg_roles.values()) or not any(
+            r == {"OUT"} for r in arg_roles.values()):
+        return None
+    roles = Roles(cfunc, arg_roles, TUPLE_CALLS)
+    stmts = set()
+    for c in [n for n in walk(cfunc) if isinstance(n, ast.Call)]:
+        k = classify(c)
+        if k and k[0] == "rename" and roles.of(k[1][0]) == {"TEMP"} \
+                and roles.of(k[1][1]) == {"OUT"}:
+            stmts.add(id(_stmt_of(c)))
+    if not stmts:
+        return None
+    cfg = CFG(cfunc)
+    if not cfg.must_pass(lambda n: n.ast is not None and n.kind == "stmt"
+                         and id(n.ast) in stmts,
+                         avoid_edge=lambda s, lab, d: lab == "x"):
+        return None
+    return [k for k, r in arg_roles.items() if r == {"TEMP"}][0]
+
+
+def _whole_collection(roles, it, role):
+    """the loop ``for … in it`` visits *every* element of a collection that
+    carries `role`: the collection itself, through zip / enumerate / list /
+    reversed / sorted, or by index ``range(len(X))``.  A slice or a filter
+    visits a part (False: the elements left out are never renamed); any
+    other shape mentioning the role cannot be classified."""
+    if isinstance(it, ast.Name):
+        return role in roles.of(it) or any(
+            role in r for r in roles.elem_roles.get(it.id, ()))
+    if isinstance(it, ast.Call):
+        nm = call_name(it)
+        if nm in ("zip", "enumerate", "list", "tuple", "reversed", "sorted",
+                  "iter") and not [k for k in it.keywords
+                                   if k.arg not in ("start", "key",
+                                                    "reverse", "strict")]:
+            return any(_whole_collection(roles, a, role) for a in it.args)
+        if nm == "range" and len(it.args) == 1 and isinstance(
+                it.args[0], ast.Call) and call_name(it.args[0]) == "len" \
+                and len(it.args[0].args) == 1:
+            return _whole_collection(roles, it.args[0].args[0], role)
+    if isinstance(it, ast.Subscript) and isinstance(it.slice, ast.Slice):
+        return False
+    if isinstance(it, (ast.ListComp, ast.GeneratorExp)):
+        if any(g.ifs for g in it.generators):
+            return False
+        return len(it.generators) == 1 and _whole_collection(
+            roles, it.generators[0].iter, role)
+    mentioned = set()
+    for nmn in ast.walk(it):
+        if isinstance(nmn, ast.Name):
+            mentioned |= roles.of(nmn)
+    if role in mentioned:
+        raise AnalysisError(f"loop over `{short(it, 50)}`: cannot tell "
+                            f"whether every {role.lower()} path is visited")
     return False
 
 
